@@ -22,17 +22,33 @@ CAST = {
               2: {"n": 2, "client": "dev", "user": "tenant:B", "will": {"t": ["st", "dev"], "p": "will-B", "q": 0, "r": True},
                   "filters": [{"f": ["#"], "q": 0}, {"f": ["st", "+"], "q": 1}]},
               3: {"n": 1, "client": "dev3", "user": "tenant:A", "filters": [{"f": ["+"], "q": 1}, {"f": ["st", "#"], "q": 2}]}},
-    "watchers": [{"c": 7, "n": 2, "user": "tenant:A", "fs": [{"f": ["#"], "q": 1}]},
+    "watchers": [{"c": 7, "n": 2, "user": "tenant:A", "fs": [{"f": ["#"], "q": 1}, {"f": ["..", "@B", "#"], "q": 0}, {"f": ["..", "+", "#"], "q": 0}]},
                  {"c": 6, "n": 1, "user": "tenant:B", "fs": [{"f": ["#"], "q": 1}]},
                  {"c": 5, "n": 1, "user": "", "fs": [{"f": ["#"], "q": 0}, {"f": ["A", "#"], "q": 0}, {"f": ["B", "#"], "q": 0}]}],
-    "publishers": [{"c": 8, "n": 1, "user": "tenant:A", "topics": [["st", "dev"], ["x"], ["B", "x"]], "q": 1, "r": True},
-                   {"c": 9, "n": 2, "user": "tenant:B", "topics": [["st", "dev"], ["x"], ["A", "x"]], "q": 0, "r": False}],
+    # names that also exist in the other tenant, names spelling the other tenant, and names with '..', '.', empty, leading and
+    # trailing levels: a level is a string like any other - nothing in a name may move it to another tenant or be tidied away
+    "publishers": [{"c": 8, "n": 1, "user": "tenant:A", "topics": [["st", "dev"], ["x"], ["B", "x"], ["..", "@B", "x"], ["", "lead"], ["e", "", "l"], ["d", "..", "up"]],
+                    "q": 1, "r": True},
+                   {"c": 9, "n": 2, "user": "tenant:B", "topics": [["st", "dev"], ["x"], ["A", "x"], ["trail", ""], [".", "dot"], ["x", ".", "y"]], "q": 0, "r": False}],
 }
 
 
 def with_tenants(cast, a, b):
-    """the same cast with other mount-point names (mount points may contain '/')"""
-    return json.loads(json.dumps(cast).replace("tenant:A", "tenant:" + a).replace("tenant:B", "tenant:" + b))
+    """the same cast with other mount-point names (mount points may contain '/'); the level "@B" stands for tenant b's name"""
+    c = json.loads(json.dumps(cast).replace("tenant:A", "tenant:" + a).replace("tenant:B", "tenant:" + b))
+
+    def expand(x):
+        if isinstance(x, list) and all(isinstance(y, str) for y in x):
+            out = []
+            for y in x:
+                out += b.split("/") if y == "@B" else [y]
+            return out
+        if isinstance(x, list):
+            return [expand(y) for y in x]
+        if isinstance(x, dict):
+            return {k: expand(v) for k, v in x.items()}
+        return x
+    return expand(c)
 
 
 def failure_family(a, b):
@@ -72,7 +88,7 @@ def check(run):
     hs = [h for h in hs if sum(1 for e in h if e["op"] == "connect") >= 2 and any(e["op"] == "publish" for e in h)]
     hs = hs[:: max(1, len(hs) // (3000 if thorough else 220))]
     # (a mount point nested inside another one, like "A" and "A/x", aliases topics by construction: not claimed)
-    casts = [CAST, with_tenants(CAST, "org/north", "org/south"), with_tenants(CAST, "org/north", "B")]
+    casts = [with_tenants(CAST, "A", "B"), with_tenants(CAST, "org/north", "org/south"), with_tenants(CAST, "org/north", "B")]
     scns = []
     for i, h in enumerate(hs):
         c = json.loads(json.dumps(casts[i % 3]))
